@@ -86,9 +86,8 @@ def check(ctx):
     for spec, ret in (('PLSSDesc.parse', 'tracts'), ('Tract.preprocess', 'text'), ('PLSSDesc.preprocess', 'pp_desc')):
         fi = ctx.repo.func(spec)
         rets = [n for n in walk_local(fi.node) if isinstance(n, ast.Return)]
-        ctx.check(len(rets) == 1 and not guards(rets[0]) and norm(rets[0].value) == ret, 'COMMIT',
-                  f"{spec} returns `{ret}` regardless of commit",
-                  detail_bad=f"returns {[norm(r) for r in rets]}", key=f"COMMIT|{spec}|return")
+        ctx.shape(len(rets) == 1 and not guards(rets[0]) and norm(rets[0].value) == ret, 'COMMIT',
+                  f"{spec} returns `{ret}` regardless of commit")
 
     ctx.attempt(_parsers_readonly)
     ctx.attempt(_commit_assigns)
@@ -119,7 +118,16 @@ def _parsers_readonly(ctx):
                 fresh = fresh or (isinstance(v, ast.Call) and dotted(v.func) in ('list', 'dict', 'tuple'))
                 if tgt.startswith('self.'):
                     seeded[tgt[5:]] = (norm(v), fresh, n, m)
-    ctx.floor('TractParser attributes seeded from the parent', len(seeded), 4)
+                    srcs = {x.attr for x in ast.walk(n.value) if isinstance(x, ast.Attribute)
+                            and norm(x.value) in ('parent', 'self.parent')}
+                    cross = srcs - {tgt[5:]}
+                    ctx.tri(srcs == {tgt[5:]}, bool(cross), 'COMMIT',
+                            f"TractParser.{tgt[5:]} starts from the tract's own {tgt[5:]}",
+                            detail_bad=f"`{norm(n)}` seeds {tgt[5:]} from the tract's {sorted(cross)}: every re-parse copies "
+                                       f"entries of another list in again, so the lists grow and get out of step",
+                            key=f"COMMIT|TractParser|cross-seed|{tgt[5:]}", where=common.loc(m, n))
+    if len(seeded) < 4:
+        ctx.undecided('COMMIT', 'TractParser attributes seeded from the parent', f"only {len(seeded)} explicit seedings recognised")
     for a, (txt, fresh, node, m) in sorted(seeded.items()):
         ctx.check(fresh, 'COMMIT', f"TractParser.{a} is a copy of the parent's list",
                   f"self.{a} = {txt}",
@@ -139,10 +147,9 @@ def _parsers_readonly(ctx):
     for spec, cls in (('PLSSDesc.preprocess', 'PLSSPreprocessor'), ('Tract.preprocess', 'TractPreprocessor')):
         fi = ctx.repo.func(spec)
         calls = [c for c in walk_local(fi.node) if isinstance(c, ast.Call) and dotted(c.func) == cls]
-        ctx.check(len(calls) == 1 and not any(isinstance(a, ast.Name) and a.id == 'self'
+        ctx.shape(len(calls) == 1 and not any(isinstance(a, ast.Name) and a.id == 'self'
                                               for a in list(calls[0].args) + [k.value for k in calls[0].keywords]),
-                  'COMMIT', f"{spec} builds a fresh {cls} from text only",
-                  detail_bad=f"{cls} construction changed", key=f"COMMIT|{spec}|fresh")
+                  'COMMIT', f"{spec} builds a fresh {cls} from text only")
 
 
 def _commit_assigns(ctx):
@@ -151,18 +158,16 @@ def _commit_assigns(ctx):
         fi = ctx.repo.func(spec)
         ifs = [n for n in fi.node.body if isinstance(n, ast.If) and norm(n.test) == 'commit']
         if len(ifs) != 1:
-            raise AnalysisError(f"{spec}: single `if commit:` block not found")
+            ctx.undecided('TBL', f"{spec}: commit block", 'single `if commit:` block not recognised')
+            continue
         blk = ifs[0]
         t = [norm(s) for s in ast.walk(blk) if isinstance(s, ast.stmt)]
         loop_ok = any(isinstance(s, ast.For) and norm(s.iter) == 'parser.UNPACKABLES'
                       and any(norm(b) == 'setattr(self, attribute, getattr(parser, attribute))' for b in s.body)
                       for s in blk.body)
-        ctx.check(loop_ok, 'TBL', f"{spec}: on commit every UNPACKABLES attribute is assigned from the new parser",
-                  detail_bad="the commit block no longer assigns each parser.UNPACKABLES attribute (results would accumulate or go stale)",
-                  key=f"TBL|{spec}|unpack")
+        ctx.shape(loop_ok, 'TBL', f"{spec}: on commit every UNPACKABLES attribute is assigned from the new parser")
         for e in extra:
-            ctx.check(e in t, 'TBL', f"{spec}: on commit `{e}`", detail_bad=f"`{e}` missing from the commit block",
-                      key=f"TBL|{spec}|{e}")
+            ctx.shape(e in t, 'TBL', f"{spec}: on commit `{e}`")
         ctx.check(not any(isinstance(c, ast.Call) and isinstance(c.func, ast.Attribute)
                           and c.func.attr in ('extend', 'append') and norm(c.func.value).startswith('self.')
                           for c in ast.walk(blk)), 'TBL',
@@ -193,8 +198,7 @@ def _commit_assigns(ctx):
     blk = [n for n in fi.node.body if isinstance(n, ast.If) and norm(n.test) == 'commit'][0]
     t = [norm(s) for s in blk.body]
     for a in ('w_flags', 'e_flags', 'w_flag_lines', 'e_flag_lines'):
-        ctx.check(f"self.{a} = []" in t, 'TBL', f"PLSSDesc.parse wipes {a} on commit",
-                  detail_bad=f"{a} not reset before unpacking", key=f"TBL|PLSSDesc.parse|wipe|{a}")
+        ctx.shape(f"self.{a} = []" in t, 'TBL', f"PLSSDesc.parse wipes {a} on commit")
     # UNPACKABLES name real parser attributes
     for cls, mod in (('PLSSParser', 'plss_parse'), ('TractParser', 'tract_parse')):
         unp = ctx.fold.get_attr(mod, cls, 'UNPACKABLES')
@@ -203,21 +207,18 @@ def _commit_assigns(ctx):
         ctx.check(not miss, 'TBL', f"{cls}.UNPACKABLES are attributes of {cls}",
                   detail_bad=f"not attributes: {miss}", key=f"TBL|{cls}.UNPACKABLES|members")
     unp = set(ctx.fold.get_attr('tract_parse', 'TractParser', 'UNPACKABLES'))
-    ctx.check({'lots', 'qqs', 'lot_acres', 'aliquots_whole'} <= unp, 'TBL',
-              'TractParser.UNPACKABLES carries lots, qqs, lot_acres, aliquots_whole',
-              detail_bad=f"UNPACKABLES = {sorted(unp)}", key="TBL|TractParser.UNPACKABLES|results")
+    ctx.shape({'lots', 'qqs', 'lot_acres', 'aliquots_whole'} <= unp, 'TBL',
+              'TractParser.UNPACKABLES carries lots, qqs, lot_acres, aliquots_whole')
     # fresh result containers in the parser
     tp = ctx.repo.func('TractParser.__init__')
     t = [norm(s) for s in walk_local(tp.node) if isinstance(s, ast.Assign)]
     for a, v in (('lots', '[]'), ('qqs', '[]'), ('lot_acres', '{}'), ('aliquots_whole', '[]')):
-        ctx.check(f"self.{a} = {v}" in t, 'FRESH', f"TractParser starts with an empty {a}",
-                  detail_bad=f"self.{a} is not initialised empty", key=f"FRESH|TractParser|{a}")
+        ctx.shape(f"self.{a} = {v}" in t, 'FRESH', f"TractParser starts with an empty {a}")
     pp = ctx.repo.func('PLSSParser.__init__')
     t = [norm(s) for s in walk_local(pp.node) if isinstance(s, ast.Assign)]
     for a, v in (('tracts', 'TractList()'), ('w_flags', '[]'), ('e_flags', '[]'),
                  ('w_flag_lines', '[]'), ('e_flag_lines', '[]'), ('tract_components', '[]')):
-        ctx.check(f"self.{a} = {v}" in t, 'FRESH', f"PLSSParser starts with an empty {a}",
-                  detail_bad=f"self.{a} is not initialised empty", key=f"FRESH|PLSSParser|{a}")
+        ctx.shape(f"self.{a} = {v}" in t, 'FRESH', f"PLSSParser starts with an empty {a}")
 
 
 def _fresh(ctx):
